@@ -128,6 +128,17 @@ def handle (st : St) (args : List String) (impl : String) : St × Verdict :=
     | some a, some b, some c, some d, some n =>
       (st, cmpModel (toString (siphash24 (mkKeys a b c d) n.toUInt64).toNat) impl)
     | _, _, _, _, _ => (st, .unknown)
+  -- the same values as spec values (run `order`: one thread, many keys / blocks / rotations)
+  | ["sip24spec", a, b, c, d, n] =>
+    match nat? a, nat? b, nat? c, nat? d, nat? n with
+    | some a, some b, some c, some d, some n =>
+      (st, cmpSpec (toString (siphash24 (mkKeys a b c d) n.toUInt64).toNat) impl)
+    | _, _, _, _, _ => (st, .unknown)
+  | ["sipblockspec", a, b, c, d, n, rot, xa] =>
+    match nat? a, nat? b, nat? c, nat? d, nat? n, nat? rot with
+    | some a, some b, some c, some d, some n, some rot =>
+      (st, cmpSpec (toString (siphashBlock (mkKeys a b c d) n.toUInt64 rot.toUInt64 (xa == "true")).toNat) impl)
+    | _, _, _, _, _, _ => (st, .unknown)
   | ["sipblock", a, b, c, d, n, rot, xa] =>
     match nat? a, nat? b, nat? c, nat? d, nat? n, nat? rot with
     | some a, some b, some c, some d, some n, some rot =>
